@@ -47,6 +47,8 @@ inductive Expr where
   | path (root : String) (keys : List String)
   | mapE (kvs : List (String × Expr))
   | listE (xs : List Expr)
+  /-- a (custom) function applied to arguments: `flatten`, `overlay`, `size`, `in` -/
+  | callE (f : String) (args : List Expr)
   | bad
   deriving Repr, Inhabited
 
@@ -532,12 +534,37 @@ def getPath : List String → JVal → Option JVal
     | none => none
   | _ :: _, _ => none
 
+/-- `flatten()`: the nested lists concatenated into a FRESH list -/
+def flattenJ : List JVal → Option (List JVal)
+  | [] => some []
+  | .arr xs :: rest => (flattenJ rest).map (xs ++ ·)
+  | _ :: _ => none
+
+/-- `overlay()`: `_deep_overlay` on a copy of the resource (nesting depth bounded by the fuel) -/
+def overlayJ : Nat → List (String × JVal) → List (String × JVal) → List (String × JVal)
+  | 0 => fun res _ => res
+  | n + 1 => fun res ov =>
+    ov.foldl (fun acc kv =>
+      match JVal.lookup kv.1 acc, kv.2 with
+      | some (.obj r), .obj o => JVal.insert kv.1 (.obj (overlayJ n r o)) acc
+      | _, v => JVal.insert kv.1 v acc) res
+
+def applyStd (f : String) (args : List JVal) : Option JVal :=
+  match f, args with
+  | "flatten", [.arr xs] => (flattenJ xs).map JVal.arr
+  | "overlay", [.obj r, .obj o] => some (.obj (overlayJ 16 r o))
+  | "size", [.arr xs] => some (.int xs.length)
+  | "size", [.obj kvs] => some (.int kvs.length)
+  | "in", [.str k, .obj kvs] => some (.bool (JVal.lookup k kvs).isSome)
+  | _, _ => none
+
 mutual
 def Expr.evalStd (act : JVal) : Expr → Option JVal
   | .lit v => some v
   | .path r ks => getPath (r :: ks) act
   | .mapE kvs => (evalStdKvs act kvs).map JVal.obj
   | .listE xs => (evalStdList act xs).map JVal.arr
+  | .callE f args => (evalStdList act args).bind (applyStd f)
   | .bad => none
 def evalStdList (act : JVal) : List Expr → Option (List JVal)
   | [] => some []
